@@ -36,8 +36,14 @@ func genIntruders(t *rapid.T) []Intruder {
 }
 
 func genBindCase(t *rapid.T) BindCase {
-	c := BindCase{Side: rapid.SampledFrom([]string{"server-udp", "client-udp", "control", "control", "server-mcast"}).Draw(t, "side")}
+	c := BindCase{Side: rapid.SampledFrom([]string{"server-udp", "client-udp", "control", "control", "server-mcast", "client-source", "control-frames"}).Draw(t, "side")}
 	switch c.Side {
+	case "control-frames":
+		c.Role = rapid.SampledFrom([]string{"record", "record", "play"}).Draw(t, "role")
+		c.Transport = rapid.SampledFrom([]string{"OPTIONS", "OPTIONS", "GET_PARAMETER", "SET_PARAMETER"}).Draw(t, "associating_request")
+		c.Legit = rapid.IntRange(2, 10).Draw(t, "legit")
+	case "client-source":
+		c.Legit = rapid.IntRange(3, 10).Draw(t, "legit")
 	case "server-mcast":
 		c.Legit = rapid.IntRange(1, 6).Draw(t, "legit")
 		c.Intruders = genIntruders(t)
